@@ -70,6 +70,106 @@ def serde_features(directory):
     raise c.BrokenTie("cargo metadata: no serde_json node in %s" % directory)
 
 
+
+# --------------------------------------------------------------------------- grammar.pest -> coq/gen/NumGrammar.v
+NUM_RULES = ["integer", "binary_digits", "hex_digits", "binary_number", "hex_number", "decimal_number", "number"]
+
+
+class PestExpr:
+    """recursive-descent parser for the subset of pest's expression syntax the number rules use:
+    "lit"  ^"lit"  'a'..'b'  ident  ( e )  e? e* e+  !e  e ~ e  e | e     (| binds loosest, then ~)"""
+
+    def __init__(self, text):
+        import re
+        self.toks = re.findall(r'\^?"(?:[^"\\]|\\.)*"|\'[^\']\'|\.\.|[A-Za-z_][A-Za-z_0-9]*|[()~|?*+!]', text)
+        if "".join(self.toks) != re.sub(r"\s+", "", text):
+            raise c.BrokenTie("grammar.pest translator: unexpected syntax in a number rule", text)
+        self.i = 0
+
+    def peek(self):
+        return self.toks[self.i] if self.i < len(self.toks) else None
+
+    def take(self):
+        t = self.peek()
+        self.i += 1
+        return t
+
+    def alt(self):
+        items = [self.seq()]
+        while self.peek() == "|":
+            self.take()
+            items.append(self.seq())
+        return items[0] if len(items) == 1 else "(%s)" % " </> ".join(items)
+
+    def seq(self):
+        items = [self.prefix()]
+        while self.peek() == "~":
+            self.take()
+            items.append(self.prefix())
+        return items[0] if len(items) == 1 else "(%s)" % " &> ".join(items)
+
+    def prefix(self):
+        if self.peek() == "!":
+            self.take()
+            return "(p_not %s)" % self.prefix()
+        return self.postfix()
+
+    def postfix(self):
+        e = self.atom()
+        while self.peek() in ("?", "*", "+"):
+            op = self.take()
+            e = "(%s %s)" % ({"?": "p_opt", "*": "p_star", "+": "p_plus"}[op], e)
+        return e
+
+    def atom(self):
+        t = self.take()
+        if t is None:
+            raise c.BrokenTie("grammar.pest translator: truncated number rule")
+        if t == "(":
+            e = self.alt()
+            if self.take() != ")":
+                raise c.BrokenTie("grammar.pest translator: unbalanced parenthesis in a number rule")
+            return e
+        if t.startswith('^"'):
+            return '(p_ilit "%s")' % t[2:-1]
+        if t.startswith('"'):
+            return '(p_lit "%s")' % t[1:-1]
+        if t.startswith("'"):
+            if self.take() != "..":
+                raise c.BrokenTie("grammar.pest translator: character literal outside a range")
+            hi = self.take()
+            return '(p_range "%s" "%s")' % (t[1], hi[1])
+        if t == "ASCII_DIGIT":
+            return "ASCII_DIGIT"
+        if t in NUM_RULES:
+            return "gen_" + t
+        raise c.BrokenTie("grammar.pest translator: a number rule refers to %r, which the model does not cover" % t)
+
+
+def regen_numgrammar():
+    """coq/gen/NumGrammar.v: the seven number rules of grammar.pest as PEG combinator terms."""
+    import re
+    path = os.path.join(c.REPO, "blots-core", "src", "grammar.pest")
+    with open(path) as f:
+        src = f.read()
+    out = ["(* GENERATED by checks/c16.py:regen_numgrammar from blots-core/src/grammar.pest. Do not edit. *)",
+           "From Coq Require Import String Ascii.", "Require Import Blots.NumText.", "Open Scope string_scope."]
+    kinds = {}
+    for name in NUM_RULES:
+        m = re.search(r"^%s\s*=\s*([_@$!]?)\{(.*)\}\s*$" % name, src, flags=re.M)
+        if not m:
+            raise c.BrokenTie("grammar.pest translator: rule %s not found" % name)
+        kinds[name] = m.group(1)
+        px = PestExpr(m.group(2).strip())
+        term = px.alt()
+        if px.peek() is not None:
+            raise c.BrokenTie("grammar.pest translator: trailing tokens in rule %s" % name)
+        out.append("Definition gen_%s : parser := %s." % (name, term))
+    # rule modifiers matter: `number` must be atomic (no implicit whitespace), the others silent
+    out.append("Definition gen_rule_kinds : list (string * string) := %s."
+               % ("(" + " :: ".join('("%s", "%s")' % (n, kinds[n]) for n in NUM_RULES) + " :: nil)%list"))
+    c.write_if_changed(os.path.join(c.GEN, "NumGrammar.v"), "\n".join(out) + "\n")
+
 # --------------------------------------------------------------------------- generators
 def boundary_doubles():
     out = []
@@ -358,6 +458,7 @@ def main(argv):
         h = c.build_harness()
         cli = c.build_cli("release")
         c.regen_builtins(h)
+        regen_numgrammar()
         core_feats = serde_features(c.HARNESS_DIR)
         cli_feats = serde_features(c.REPO)
     except c.BrokenTie as e:
